@@ -255,6 +255,7 @@ Definition modelled_skeleton : list Z :=
      op 1 (packet):  1 epoch(0 I,1 Z,2 H,3 O) auth(0|1) gen phase first pn pnlen scid(id) elic err(-1|code) fx(bit 1 discard
                      handshake, 2 handshake keys, 4 1-RTT keys) idle now
                      -> verdict, state, number of payloads delivered, reschedule_data calls
+     op 3: the same tokens as op 1, for a packet followed by another one in the SAME datagram  -> verdict only
      op 2 (a Handshake packet was sent):  2  -> keysI discardedI keysH discardedH
    connection IDs are small numbers chosen by the harness ([id] as a one-element list); times are milliseconds. *)
 Definition NONE_T : Z := -1000000000.
@@ -298,22 +299,27 @@ Definition fx_of (z : Z) : list pfx :=
   (if Z.testbit z 1 then [FxKeysHandshake] else []) ++ (if Z.testbit z 2 then [FxKeysOneRtt] else [])
   ++ (if Z.testbit z 0 then [FxDiscardHandshake] else []).
 
+(* one packet op: (state after, verdict) *)
+Definition exec_packet (c : conn) (ep au g ph first pn pnl scid el er fx idle now : Z) : conn * Z :=
+  let e := epoch_of ep in
+  let r := mkR e (mkQ (if au =? 0 then None else Some g) ph (negb (epoch_eqb e EOneRtt))) first pn pnl [scid] [] in
+  let fr := fun _ : list Z => mkF (z2b el) (if er <? 0 then None else Some er) (fx_of fx) in
+  (recv_packet fr idle ACK_DELAY_MS c r now, recv_verdict fr idle ACK_DELAY_MS c r now).
+
 Fixpoint exec_packetrecv_go (fuel : nat) (c : conn) (toks : list Z) : list Z :=
   match fuel with
   | O => []
   | S f =>
       match toks with
-      | 1 :: ep :: au :: g :: ph :: first :: pn :: pnl :: scid :: el :: er :: fx :: idle :: now :: t =>
-          let e := epoch_of ep in
-          let r := mkR e (mkQ (if au =? 0 then None else Some g) ph (negb (epoch_eqb e EOneRtt))) first pn pnl [scid] [] in
-          let fr := fun _ : list Z => mkF (z2b el) (if er <? 0 then None else Some er) (fx_of fx) in
-          let c' := recv_packet fr idle ACK_DELAY_MS c r now in
-          recv_verdict fr idle ACK_DELAY_MS c r now :: out_conn c' ++ [Zlen (c_delivered c'); c_rescheduled c']
-            ++ exec_packetrecv_go f c' t
       | 2 :: t =>
           let c' := on_handshake_sent c in
           [b2z (c_keys_initial c'); b2z (sp_discarded (c_sp_initial c')); b2z (c_keys_handshake c'); b2z (sp_discarded (c_sp_handshake c'))]
             ++ exec_packetrecv_go f c' t
+      | op :: ep :: au :: g :: ph :: first :: pn :: pnl :: scid :: el :: er :: fx :: idle :: now :: t =>
+          let '(c', v) := exec_packet c ep au g ph first pn pnl scid el er fx idle now in
+          if op =? 1 then v :: out_conn c' ++ [Zlen (c_delivered c'); c_rescheduled c'] ++ exec_packetrecv_go f c' t
+          else if op =? 3 then v :: exec_packetrecv_go f c' t          (* a packet that is not the last one of its datagram *)
+          else []
       | _ => []
       end
   end.
